@@ -607,6 +607,10 @@ class PDFPageInterpreter:
 
     def do_h(self) -> None:
         """Close subpath"""
+        if self.curpath and self.curpath[-1][0] == "h":
+            # If the current subpath is already closed, h does nothing
+            # (ISO 32000-1 Table 59).
+            return
         self.curpath.append(("h",))
 
     def do_re(self, x: PDFStackT, y: PDFStackT, w: PDFStackT, h: PDFStackT) -> None:
